@@ -1,6 +1,4 @@
-import ThermoVerif.Lemmas.IndexCacheWorld
-import ThermoVerif.Lemmas.IndexerData
-import ThermoVerif.Lemmas.Chemicals
+import ThermoVerif.Lemmas.C10Facts
 /-
 C10 — name-keyed flow access equals positional access, whatever the lookup history.
 
@@ -17,7 +15,12 @@ Main results
   invariant `Inv`: every memoised pair `(k, v)` satisfies `resolve chem k = ok v`, preserved by
   every operation including eviction (`evict1`), trimming (`trim`), `index_overlap` insertions
   and alias / group definitions.
-* `get_positional_name/_tuple/_all/_phases`, `list_eq_tuple` — what a resolved key reads.
+* `get_positional_name/_tuple` — what a resolved key reads.  (The ellipsis / phase forms and "lists are tuples" hold by
+  definition of the model — its flow data are dense rows — and are kept as facts in `Lemmas/C10Facts.lean`; the real
+  sparse-dictionary read paths are tied to these definitions by correspondence and the oracle, not by proof.
+  `getAt` is total (0 beyond the row); `set_frame` therefore also states that the row keeps its length.)
+* The per-operation simulation lemmas `step_*` are in `Lemmas/C10Steps.lean`.  The theorems do not depend on eviction order
+  or on the limits 100 / 500: those are unobservable by the property.
 * `set_frame`, `set_get_one/_arr_vec/_arr_scalar/_all/_grp_vec/_nested_vec`, `set_group_scalar`,
   `setM_phase_row` — what a write changes and what reads back.
 * `alias_unique` — the table after `compile`.
@@ -31,318 +34,6 @@ Main results
 -/
 namespace ThermoVerif.Props.C10
 open ThermoVerif.Chemicals ThermoVerif.Indexer ThermoVerif.IndexCache
-
-theorem setAlias_existing {c c' : Chem} {res : List String} {id a : String}
-    (h : c.setAlias res id a = .ok c') (ha : (alookup a c.index).isNone = false) : c' = c := by
-  unfold Chem.setAlias at h
-  split at h
-  · split at h
-    · split at h
-      · cases h
-      · split at h <;> cases h
-    · cases h
-  · split at h
-    · cases h
-    · split at h <;> cases h
-  · split at h
-    · cases h
-    · split at h
-      · rename_i hn; simp [hn] at ha
-      · split at h
-        · cases h; rfl
-        · cases h
-      · cases h
-
-theorem step_compile (w : World) (h : Inv w) (specs : List Spec) :
-    (w.step (.compile specs)).2 = (w.obs.step (.compile specs)).2 ∧
-    (w.step (.compile specs)).1.obs = (w.obs.step (.compile specs)).1 ∧
-    Inv (w.step (.compile specs)).1 := by
-  simp only [World.step, PWorld.step]
-  cases compile specs with
-  | error e => exact ⟨rfl, rfl, h⟩
-  | ok c =>
-    refine ⟨rfl, by simp [World.obs], ?_, ?_, ?_⟩
-    · intro s hs
-      simp only [List.mem_append, List.mem_singleton] at hs
-      rcases hs with hs | hs
-      · exact h.chem s hs
-      · subst hs; exact cacheOK_nil _
-    · intro e he s hs
-      have hb := h.bound e he
-      simp only at hs
-      rw [List.getElem?_append_left hb] at hs
-      exact h.mat e he s hs
-    · intro e he
-      have hb := h.bound e he
-      simp only [List.length_append, List.length_singleton]
-      omega
-
-theorem step_alias (w : World) (h : Inv w) (c : Nat) (id a : String) :
-    (w.step (.alias c id a)).2 = (w.obs.step (.alias c id a)).2 ∧
-    (w.step (.alias c id a)).1.obs = (w.obs.step (.alias c id a)).1 ∧
-    Inv (w.step (.alias c id a)).1 := by
-  simp only [World.step, PWorld.step, obs_chems_get]
-  cases hs : w.chems[c]? with
-  | none => exact ⟨rfl, rfl, h⟩
-  | some s =>
-    simp only [Option.map_some]
-    cases ha : s.chem.setAlias reservedAll id a with
-    | error e =>
-      refine ⟨rfl, obs_redefine w hs _ _, inv_redefine h hs _ _ ?_⟩
-      intro hd
-      split at hd
-      · rename_i heq; exact heq
-      · cases hd
-    | ok chem' =>
-      refine ⟨rfl, obs_redefine w hs chem' _, inv_redefine h hs chem' _ ?_⟩
-      intro hd
-      exact setAlias_existing ha hd
-
-theorem step_group (w : World) (h : Inv w) (c : Nat) (name : String) (ids : List String)
-    (comp : Option (List Rat)) (wt : Bool) :
-    (w.step (.group c name ids comp wt)).2 = (w.obs.step (.group c name ids comp wt)).2 ∧
-    (w.step (.group c name ids comp wt)).1.obs = (w.obs.step (.group c name ids comp wt)).1 ∧
-    Inv (w.step (.group c name ids comp wt)).1 := by
-  simp only [World.step, PWorld.step, obs_chems_get]
-  cases hs : w.chems[c]? with
-  | none => exact ⟨rfl, rfl, h⟩
-  | some s =>
-    simp only [Option.map_some]
-    cases ha : s.chem.defineGroup reservedAll name ids comp wt with
-    | error e => exact ⟨rfl, rfl, h⟩
-    | ok chem' =>
-      exact ⟨rfl, obs_redefine w hs chem' _, inv_redefine h hs chem' _ (by intro hd; cases hd)⟩
-
-theorem step_newChemIx (w : World) (h : Inv w) (c : Nat) (ph : Char) :
-    (w.step (.newChemIx c ph)).2 = (w.obs.step (.newChemIx c ph)).2 ∧
-    (w.step (.newChemIx c ph)).1.obs = (w.obs.step (.newChemIx c ph)).1 ∧
-    Inv (w.step (.newChemIx c ph)).1 := by
-  simp only [World.step, PWorld.step, obs_chems_get]
-  cases hs : w.chems[c]? with
-  | none => exact ⟨rfl, rfl, h⟩
-  | some s => exact ⟨rfl, rfl, ⟨h.chem, h.mat, h.bound⟩⟩
-
-theorem step_newSplitIx (w : World) (h : Inv w) (c : Nat) :
-    (w.step (.newSplitIx c)).2 = (w.obs.step (.newSplitIx c)).2 ∧
-    (w.step (.newSplitIx c)).1.obs = (w.obs.step (.newSplitIx c)).1 ∧
-    Inv (w.step (.newSplitIx c)).1 := by
-  simp only [World.step, PWorld.step, obs_chems_get]
-  cases hs : w.chems[c]? with
-  | none => exact ⟨rfl, rfl, h⟩
-  | some s => exact ⟨rfl, rfl, ⟨h.chem, h.mat, h.bound⟩⟩
-
-theorem step_newMatIx (w : World) (h : Inv w) (c : Nat) (ps : List Char) :
-    (w.step (.newMatIx c ps)).2 = (w.obs.step (.newMatIx c ps)).2 ∧
-    (w.step (.newMatIx c ps)).1.obs = (w.obs.step (.newMatIx c ps)).1 ∧
-    Inv (w.step (.newMatIx c ps)).1 := by
-  simp only [World.step, PWorld.step, obs_chems_get]
-  cases hs : w.chems[c]? with
-  | none => cases phaseTuple ps <;> exact ⟨rfl, rfl, h⟩
-  | some s =>
-    cases phaseTuple ps with
-    | none => exact ⟨rfl, rfl, h⟩
-    | some pt => exact ⟨rfl, rfl, ⟨h.chem, h.mat, h.bound⟩⟩
-
-theorem step_get (w : World) (h : Inv w) (i : Nat) (key : PyKey) :
-    (w.step (.get i key)).2 = (w.obs.step (.get i key)).2 ∧
-    (w.step (.get i key)).1.obs = (w.obs.step (.get i key)).1 ∧
-    Inv (w.step (.get i key)).1 := by
-  simp only [World.step, PWorld.step, obs_chems_get]
-  have hix : w.obs.ixs = w.ixs := rfl
-  rw [hix]
-  cases hi : w.ixs[i]? with
-  | none => exact ⟨rfl, rfl, h⟩
-  | some ix =>
-    simp only
-    cases hs : w.chems[ix.chem]? with
-    | none => exact ⟨rfl, rfl, h⟩
-    | some s =>
-      simp only [Option.map_some]
-      obtain ⟨h1, h2, h3, h4, h5⟩ :=
-        resolveIx_spec s (w.mcacheOf ix) ix.phases key (h.chem s (List.mem_of_getElem? hs)) (mcacheOf_ok h ix hs)
-      rw [← h1]
-      generalize resolveIx s (w.mcacheOf ix) ix.phases key = R at h1 h2 h3 h4 h5
-      obtain ⟨r, s', mc'⟩ := R
-      simp only at h1 h2 h3 h4 h5 ⊢
-      cases r with
-      | error e => exact ⟨rfl, obs_putCaches w ix mc' hs h2 h3, inv_putCaches h ix hs h2 h4 h5⟩
-      | ok v => exact ⟨rfl, obs_putCaches w ix mc' hs h2 h3, inv_putCaches h ix hs h2 h4 h5⟩
-
-theorem step_set (w : World) (h : Inv w) (i : Nat) (key : PyKey) (d : Data) :
-    (w.step (.set i key d)).2 = (w.obs.step (.set i key d)).2 ∧
-    (w.step (.set i key d)).1.obs = (w.obs.step (.set i key d)).1 ∧
-    Inv (w.step (.set i key d)).1 := by
-  simp only [World.step, PWorld.step, obs_chems_get]
-  have hix : w.obs.ixs = w.ixs := rfl
-  rw [hix]
-  cases hi : w.ixs[i]? with
-  | none => exact ⟨rfl, rfl, h⟩
-  | some ix =>
-    simp only
-    cases hs : w.chems[ix.chem]? with
-    | none => exact ⟨rfl, rfl, h⟩
-    | some s =>
-      simp only [Option.map_some]
-      obtain ⟨h1, h2, h3, h4, h5⟩ :=
-        resolveIx_spec s (w.mcacheOf ix) ix.phases key (h.chem s (List.mem_of_getElem? hs)) (mcacheOf_ok h ix hs)
-      rw [← h1]
-      generalize resolveIx s (w.mcacheOf ix) ix.phases key = R at h1 h2 h3 h4 h5
-      obtain ⟨r, s', mc'⟩ := R
-      simp only at h1 h2 h3 h4 h5 ⊢
-      have ho := obs_putCaches w ix mc' hs h2 h3
-      have hv := inv_putCaches h ix hs h2 h4 h5
-      cases r with
-      | error e => exact ⟨rfl, ho, hv⟩
-      | ok v =>
-        obtain ⟨v, ids⟩ := v
-        exact ⟨rfl, by rw [obs_setData, ho], inv_setData hv _ _ _⟩
-
-theorem step_array (w : World) (h : Inv w) (c : Nat) (split : Bool) (key : PyKey) (d : Data) :
-    (w.step (.array c split key d)).2 = (w.obs.step (.array c split key d)).2 ∧
-    (w.step (.array c split key d)).1.obs = (w.obs.step (.array c split key d)).1 ∧
-    Inv (w.step (.array c split key d)).1 := by
-  simp only [World.step, PWorld.step, obs_chems_get]
-  cases hs : w.chems[c]? with
-  | none => exact ⟨rfl, rfl, h⟩
-  | some s =>
-    simp only [Option.map_some]
-    cases normC (tupleKey key) with
-    | error e => exact ⟨rfl, rfl, h⟩
-    | ok k =>
-      simp only
-      obtain ⟨h1, h2, h3, h4⟩ := lookup_spec s (h.chem s (List.mem_of_getElem? hs)) k
-      rw [← h1]
-      exact ⟨rfl, obs_setChem w hs h2 h3, inv_setChem h hs h2 h4⟩
-
-theorem step_getMass (w : World) (h : Inv w) (i : Nat) (key : PyKey) :
-    (w.step (.getMass i key)).2 = (w.obs.step (.getMass i key)).2 ∧
-    (w.step (.getMass i key)).1.obs = (w.obs.step (.getMass i key)).1 ∧
-    Inv (w.step (.getMass i key)).1 := by
-  simp only [World.step, PWorld.step, obs_chems_get]
-  have hix : w.obs.ixs = w.ixs := rfl
-  rw [hix]
-  cases hi : w.ixs[i]? with
-  | none => exact ⟨rfl, rfl, h⟩
-  | some ix =>
-    simp only
-    cases hs : w.chems[ix.chem]? with
-    | none => exact ⟨rfl, rfl, h⟩
-    | some s =>
-      simp only [Option.map_some]
-      obtain ⟨h1, h2, h3, h4, h5⟩ :=
-        resolveIx_spec s (w.mcacheOf ix) ix.phases key (h.chem s (List.mem_of_getElem? hs)) (mcacheOf_ok h ix hs)
-      rw [← h1]
-      generalize resolveIx s (w.mcacheOf ix) ix.phases key = R at h1 h2 h3 h4 h5
-      obtain ⟨r, s', mc'⟩ := R
-      simp only at h1 h2 h3 h4 h5 ⊢
-      cases r with
-      | error e => exact ⟨rfl, obs_putCaches w ix mc' hs h2 h3, inv_putCaches h ix hs h2 h4 h5⟩
-      | ok v => exact ⟨rfl, obs_putCaches w ix mc' hs h2 h3, inv_putCaches h ix hs h2 h4 h5⟩
-
-theorem step_setMass (w : World) (h : Inv w) (i : Nat) (key : PyKey) (d : Data) :
-    (w.step (.setMass i key d)).2 = (w.obs.step (.setMass i key d)).2 ∧
-    (w.step (.setMass i key d)).1.obs = (w.obs.step (.setMass i key d)).1 ∧
-    Inv (w.step (.setMass i key d)).1 := by
-  simp only [World.step, PWorld.step, obs_chems_get]
-  have hix : w.obs.ixs = w.ixs := rfl
-  rw [hix]
-  cases hi : w.ixs[i]? with
-  | none => exact ⟨rfl, rfl, h⟩
-  | some ix =>
-    simp only
-    cases hs : w.chems[ix.chem]? with
-    | none => exact ⟨rfl, rfl, h⟩
-    | some s =>
-      simp only [Option.map_some]
-      obtain ⟨h1, h2, h3, h4, h5⟩ :=
-        resolveIx_spec s (w.mcacheOf ix) ix.phases key (h.chem s (List.mem_of_getElem? hs)) (mcacheOf_ok h ix hs)
-      rw [← h1]
-      generalize resolveIx s (w.mcacheOf ix) ix.phases key = R at h1 h2 h3 h4 h5
-      obtain ⟨r, s', mc'⟩ := R
-      simp only at h1 h2 h3 h4 h5 ⊢
-      have ho := obs_putCaches w ix mc' hs h2 h3
-      have hv := inv_putCaches h ix hs h2 h4 h5
-      cases r with
-      | error e => exact ⟨rfl, ho, hv⟩
-      | ok v =>
-        obtain ⟨v, ids⟩ := v
-        exact ⟨rfl, by rw [obs_setData, ho], inv_setData hv _ _ _⟩
-
-theorem step_transfer (w : World) (h : Inv w) (l r : Nat) (add : Bool) :
-    (w.transfer l r add).2 = (w.obs.transfer l r add).2 ∧
-    (w.transfer l r add).1.obs = (w.obs.transfer l r add).1 ∧
-    Inv (w.transfer l r add).1 := by
-  simp only [World.transfer, PWorld.transfer, obs_chems_get]
-  have hix : w.obs.ixs = w.ixs := rfl
-  rw [hix]
-  cases hl : w.ixs[l]? with
-  | none => exact ⟨rfl, rfl, h⟩
-  | some il =>
-    cases hr : w.ixs[r]? with
-    | none => exact ⟨rfl, rfl, h⟩
-    | some ir0 =>
-      simp only
-      cases hsl : w.chems[il.chem]? with
-      | none => exact ⟨rfl, rfl, h⟩
-      | some sl =>
-        cases hsr : w.chems[ir0.chem]? with
-        | none => exact ⟨rfl, rfl, h⟩
-        | some sr =>
-          simp only [Option.map_some]
-          cases flatSource il ir0 add with
-          | none => exact ⟨rfl, rfl, h⟩
-          | some ir =>
-          simp only
-          have hinv : ∀ (w' : World) (ix' : Indexer), Inv w' → Inv (w'.putIx l ix') :=
-            fun w' ix' hv => ⟨hv.chem, hv.mat, hv.bound⟩
-          have hobs : ∀ (w' : World) (ix' : Indexer), w'.obs = w.obs → (w'.putIx l ix').obs = w.obs.putIx l ix' := by
-            intro w' ix' ho
-            simp only [World.putIx, PWorld.putIx, World.obs] at ho ⊢
-            rw [PWorld.mk.injEq] at ho ⊢
-            exact ⟨ho.1, by rw [ho.2]⟩
-          split
-          · -- same chemicals object: no memo is touched, the receiver may grow in place
-            split
-            · exact ⟨rfl, rfl, hinv w _ h⟩
-            · exact ⟨rfl, rfl, h⟩
-          · split
-            · -- single-phase receiver
-              split
-              · rename_i rowL rowR _ _ _
-                obtain ⟨o1, o2, o3, o4⟩ := overlap_spec sl (h.chem sl (List.mem_of_getElem? hsl))
-                  ((nonzeroPositions rowR).map fun i => sr.cas.getD i "")
-                rw [← o1]
-                generalize sl.overlap ((nonzeroPositions rowR).map fun i => sr.cas.getD i "") = R at o1 o2 o3 o4
-                obtain ⟨res, sl'⟩ := R
-                simp only at o1 o2 o3 o4 ⊢
-                have ho := obs_setChem w hsl o2 o3
-                have hv := inv_setChem h hsl o2 o4
-                generalize transferRow rowL rowR add (nonzeroPositions rowR) res = T
-                obtain ⟨row', oe⟩ := T
-                cases oe with
-                | some e => exact ⟨rfl, hobs _ _ ho, hinv _ _ hv⟩
-                | none => exact ⟨rfl, hobs _ _ ho, hinv _ _ hv⟩
-              · exact ⟨rfl, rfl, h⟩
-            · -- multi-phase receiver: `index_overlap`, then the phase logic on the carried-over rows
-              obtain ⟨o1, o2, o3, o4⟩ := overlap_spec sl (h.chem sl (List.mem_of_getElem? hsl))
-                ((unionNonzero ir.data).map fun i => sr.cas.getD i "")
-              rw [← o1]
-              generalize sl.overlap ((unionNonzero ir.data).map fun i => sr.cas.getD i "") = R at o1 o2 o3 o4
-              obtain ⟨res, sl'⟩ := R
-              simp only at o1 o2 o3 o4 ⊢
-              have ho := obs_setChem w hsl o2 o3
-              have hv := inv_setChem h hsl o2 o4
-              cases res with
-              | error e =>
-                simp only
-                cases growOnly sl.chem.size il ir add with
-                | some il' => exact ⟨rfl, hobs _ _ ho, hinv _ _ hv⟩
-                | none => exact ⟨rfl, ho, hv⟩
-              | ok lix =>
-                simp only
-                cases transferSame sl.chem.size il (mapIndexer sl.chem.size lix (unionNonzero ir.data) ir) add false with
-                | some il' => exact ⟨rfl, hobs _ _ ho, hinv _ _ hv⟩
-                | none => exact ⟨rfl, ho, hv⟩
 
 /-- One step of the memoising world is one step of the memo-free specification: same
 answer, same tables and data afterwards, and every memoised pair is still correct. -/
@@ -444,22 +135,6 @@ example : ((World.run {} exHistory).1.chems.map (·.cache.length),
 
 /-! ## Reading: `get_positional` -/
 
-/-- Positions a resolved index addresses in a row of length `n`. -/
-def positions : Ix → Nat → List Nat
-  | .one i, _ => [i]
-  | .grp is, _ => is
-  | .nested es, _ => es.flatMap Ent.positions
-  | .arr is, _ => is
-  | .all, n => List.range n
-
-theorem getEnt_entsPos : ∀ (es : List Ent) (row : Row), es.any Ent.isGrp = false →
-    (entsPos es).map (getAt row) = es.map (getEnt row)
-  | [], _, _ => rfl
-  | .pos i :: t, row, h => by
-    simp only [List.any_cons, Ent.isGrp, Bool.false_or] at h
-    simp [entsPos, getEnt, getEnt_entsPos t row h]
-  | .grp _ :: t, row, h => by simp [Ent.isGrp] at h
-
 /-- **get_positional** (single name).  A name that the table maps to entry `e` reads the
 data at the position of `e`; a group name reads the sum over its members. -/
 theorem get_positional_name (c : Chem) (row : Row) (n : String) (e : Ent)
@@ -480,27 +155,7 @@ theorem get_positional_tuple (c : Chem) (row : Row) (items : List HItem) (es : L
     simp only [pure, Except.pure, Except.map, getIx]
     rw [getEnt_entsPos es row (by simpa using hg)]
 
-/-- **get_positional** (ellipsis): the whole row. -/
-theorem get_positional_all (c : Chem) (row : Row) :
-    (resolveC c (.leaf .ell)).map (getIx row) = .ok (.vec row) := rfl
-
-/-- **get_positional** (multi-phase).  A chemical key reads the column sums; a phase label
-its row; `(phase, IDs)` reads `IDs` in that row; `(..., IDs)` in every row. -/
-theorem get_positional_phases (data : List Row) (p : Nat) (ix : Ix) :
-    getM data (.sum ix) = getIx (colSums data) ix ∧
-    getM data (.row p) = .vec (data.getD p []) ∧
-    getM data .whole = .mat data ∧
-    getM data (.sub (some p) ix) = getIx (data.getD p []) ix ∧
-    getM data (.sub none ix) = stack (data.map fun r => getIx r ix) := ⟨rfl, rfl, rfl, rfl, rfl⟩
-
-/-- Lists and tuples are the same key (so is any mix of them, one level down). -/
-theorem list_eq_tuple (l : List Item) : normM (.lst l) = normM (.tup l) ∧ normC (.lst l) = normC (.tup l) :=
-  ⟨rfl, rfl⟩
-
 /-! ## Writing: `set_frame`, `set_get`, `set_group_scalar` -/
-
-theorem getAt_ge (row : Row) (j : Nat) (h : row.length ≤ j) : getAt row j = 0 := by
-  simp [getAt, List.getD_eq_getElem?_getD, List.getElem?_eq_none h]
 
 /-- **set_frame.**  A successful write through any resolved key changes no entry outside the
 positions the key addresses, and keeps the length of the row. -/
@@ -522,7 +177,7 @@ theorem set_frame (c : Chem) (row row' : Row) (ix : Ix) (k : HKey) (d : Data)
       intro j hj
       simp only [positions, List.mem_range, Nat.not_lt] at hj
       rw [getAt_ge _ _ (by simpa using hj), getAt_ge _ _ hj]
-    | mat => simp [setIx, resetRow] at h
+    | mat _ => simp [setIx, resetRow] at h
   | one i =>
     cases d with
     | scalar x =>
@@ -530,7 +185,7 @@ theorem set_frame (c : Chem) (row row' : Row) (ix : Ix) (k : HKey) (d : Data)
       exact ⟨by intro j hj; simp only [positions, List.mem_singleton] at hj; exact getAt_setAt_ne _ _ hj,
         length_setAt _ _ _⟩
     | vec xs => simp [setIx] at h
-    | mat => simp [setIx] at h
+    | mat _ => simp [setIx] at h
   | grp is =>
     cases d with
     | scalar x =>
@@ -542,7 +197,7 @@ theorem set_frame (c : Chem) (row row' : Row) (ix : Ix) (k : HKey) (d : Data)
     | vec xs =>
       simp only [setIx] at h; cases h
       exact ⟨fun j hj => writeZip_frame _ _ _ _ hj, length_writeZip _ _ _⟩
-    | mat => simp [setIx] at h
+    | mat _ => simp [setIx] at h
   | nested es =>
     cases d with
     | scalar x =>
@@ -556,7 +211,7 @@ theorem set_frame (c : Chem) (row row' : Row) (ix : Ix) (k : HKey) (d : Data)
       simp only [setIx] at h
       have := fun j => writeNestedVec_frame c k xs es row 0 row' j h
       exact ⟨fun j hj => (this j).1 hj, (this 0).2⟩
-    | mat => simp [setIx] at h
+    | mat _ => simp [setIx] at h
   | arr is =>
     cases d with
     | scalar x =>
@@ -565,7 +220,7 @@ theorem set_frame (c : Chem) (row row' : Row) (ix : Ix) (k : HKey) (d : Data)
     | vec xs =>
       simp only [setIx] at h; cases h
       exact ⟨fun j hj => writeZip_frame _ _ _ _ hj, length_writeZip _ _ _⟩
-    | mat => simp [setIx] at h
+    | mat _ => simp [setIx] at h
 
 /-- **set_frame for rejected writes.**  A write that raises may already have written part of
 what its key addresses (a nested key with too few data: the elements before the missing one; a
@@ -638,7 +293,7 @@ theorem setSplit_frame (row : Row) (ix : Ix) (d : Data) :
       generalize splitNestedVec xs row 0 es = R at this
       obtain ⟨r, b⟩ := R
       cases b <;> exact ⟨fun j hj => (this j).1 hj, (this 0).2⟩
-    | mat => simp only [setSplit]; simp
+    | mat _ => simp only [setSplit]; simp
 
 /-- **set_get (SplitIndexer, group).**  A scalar written to a group name is the split of every
 member (no composition is involved), and reads back as such. -/
@@ -686,59 +341,6 @@ theorem set_get_grp_vec (c : Chem) (row : Row) (is : List Nat) (k : HKey) (xs : 
     (hn : is.Nodup) (hl : xs.length = is.length) (hb : ∀ i, i ∈ is → i < row.length) :
     (setIx c row (.grp is) k (.vec xs)).map (fun r => getIx r (.grp is)) = .ok (.scalar (sumRat xs)) := by
   simp [setIx, Except.map, getIx, writeZip_read is xs row hn hl hb]
-
-/-- Side conditions for writing through a nested key (a tuple mixing chemicals and groups):
-every group element of the key has a stored composition of the right length that sums to 1. -/
-def NestedOK (c : Chem) (k : HKey) : Nat → List Ent → Prop
-  | _, [] => True
-  | n, .pos _ :: t => NestedOK c k (n + 1) t
-  | n, .grp is :: t =>
-    (∃ comp, compOf c (itemName (keyItem k n)) = .ok comp ∧ comp.length = is.length ∧ sumRat comp = 1) ∧
-    NestedOK c k (n + 1) t
-
-theorem drop_cons_of_get {xs : List Rat} {n : Nat} {x : Rat} (h : xs[n]? = some x) :
-    xs.drop n = x :: xs.drop (n + 1) := by
-  obtain ⟨hlt, hx⟩ := List.getElem?_eq_some_iff.mp h
-  rw [List.drop_eq_getElem_cons hlt, hx]
-
-theorem writeNestedVec_read (c : Chem) (k : HKey) (xs : List Rat) :
-    ∀ (es : List Ent) (row : Row) (n : Nat) (row' : Row),
-    writeNestedVec c k xs row n es = .ok row' →
-    (es.flatMap Ent.positions).Nodup → (∀ i, i ∈ es.flatMap Ent.positions → i < row.length) →
-    NestedOK c k n es → es.map (getEnt row') = (xs.drop n).take es.length
-  | [], _, _, _, _, _, _, _ => by simp
-  | .pos i :: t, row, n, row', h, hn, hb, hok => by
-    simp only [writeNestedVec] at h
-    split at h
-    · cases h
-    · rename_i x hx
-      simp only [List.flatMap_cons, Ent.positions, List.singleton_append, List.nodup_cons] at hn
-      have hbi : i < row.length := hb i (by simp [Ent.positions])
-      have ih := writeNestedVec_read c k xs t (setAt row i x) (n + 1) row' h hn.2
-        (by intro j hj; rw [length_setAt]; exact hb j (by simp [hj])) hok
-      have hfr := (writeNestedVec_frame c k xs t _ _ row' i h).1 hn.1
-      simp only [List.map_cons, List.length_cons, getEnt]
-      rw [drop_cons_of_get hx, List.take_succ_cons, ih, hfr, getAt_setAt_eq _ _ hbi]
-  | .grp is :: t, row, n, row', h, hn, hb, hok => by
-    simp only [writeNestedVec] at h
-    split at h
-    · cases h
-    · rename_i x hx
-      obtain ⟨⟨comp, hc, hl, hs⟩, hok'⟩ := hok
-      simp only [hc, bind, Except.bind] at h
-      simp only [List.flatMap_cons, Ent.positions] at hn hb
-      rw [List.nodup_append] at hn
-      obtain ⟨hn1, hn2, hdis⟩ := hn
-      have hb1 : ∀ j, j ∈ is → j < row.length := fun j hj => hb j (List.mem_append_left _ hj)
-      have ih := writeNestedVec_read c k xs t _ (n + 1) row' h hn2
-        (by intro j hj; rw [length_writeZip]; exact hb j (List.mem_append_right _ hj)) hok'
-      have hmem : is.map (getAt row') = is.map (getAt (writeZip row is (comp.map (x * ·)))) := by
-        apply List.map_congr_left
-        intro j hj
-        exact (writeNestedVec_frame c k xs t _ _ row' j h).1 (fun hjt => hdis j hj j hjt rfl)
-      simp only [List.map_cons, List.length_cons, getEnt]
-      rw [drop_cons_of_get hx, List.take_succ_cons, ih, hmem,
-        writeZip_read is _ row hn1 (by simp [hl]) hb1, sumRat_map_mul, hs, Rat.mul_one]
 
 /-- **set_get** (tuple mixing chemicals and groups, 1-d data).  With pairwise distinct
 in-range positions and normalised group compositions, reading the key back returns the data
@@ -830,17 +432,6 @@ theorem set_group_scalar (c : Chem) (row : Row) (name : String) (is : List Nat) 
 
 /-! ## Names: `alias_unique` -/
 
-theorem baseIndex_inv (specs : List Spec) :
-    (keys (baseIndex specs)).Nodup ∧ AllPos specs.length (baseIndex specs) := by
-  unfold baseIndex
-  apply insertAll_inv
-  · simp [keys]
-  · intro k e h; cases h
-  · intro k e h
-    rcases List.mem_append.mp h with h | h
-    · exact positionsFrom_allPos _ 0 _ (by simp) k e h
-    · exact positionsFrom_allPos _ 0 _ (by simp) k e h
-
 /-- **alias_unique.**  After a successful `compile`:
 1. every accepted name occurs once in the table (it has exactly one position), and every
    entry is the position of one of the chemicals;
@@ -902,100 +493,6 @@ example : (compile [⟨"Ethanol", "64-17-5", ["ethanol"], 46⟩, ⟨"ethanol", "
 
 /-! ### Names of chemicals never move -/
 
-/-- The tables of chemicals object `c` after one more operation. -/
-theorem step_chems (p : PWorld) (op : Op) (c : Nat) (chem : Chem) (cas : List String)
-    (h : p.chems[c]? = some (chem, cas)) :
-    ∃ chem', (p.step op).1.chems[c]? = some (chem', cas) ∧
-      ∀ k i, alookup k chem.index = some (.pos i) → alookup k chem'.index = some (.pos i) := by
-  have keep : ∀ q : PWorld, q.chems = p.chems →
-      ∃ chem', q.chems[c]? = some (chem', cas) ∧
-        ∀ k i, alookup k chem.index = some (.pos i) → alookup k chem'.index = some (.pos i) :=
-    fun q hq => ⟨chem, by rw [hq]; exact h, fun _ _ hk => hk⟩
-  have hlt : c < p.chems.length := (List.getElem?_eq_some_iff.mp h).1
-  cases op with
-  | compile specs =>
-    simp only [PWorld.step]
-    split
-    · refine ⟨chem, ?_, fun _ _ hk => hk⟩
-      simp only
-      rw [List.getElem?_append_left hlt]; exact h
-    · exact keep _ rfl
-  | alias c' id a =>
-    simp only [PWorld.step]
-    split
-    · exact keep _ rfl
-    · rename_i chem0 cas0 h0
-      by_cases hc : c' = c
-      · subst hc
-        rw [h] at h0; cases h0
-        split
-        · exact ⟨chem.setAliasFail reservedAll id a, by simp [hlt], fun k i hk => setAliasFail_mono chem _ _ _ hk⟩
-        · rename_i chem' ha
-          exact ⟨_, by simp [hlt], fun k i hk => setAlias_mono ha hk⟩
-      · split <;> exact ⟨chem, by simp [hc, h], fun _ _ hk => hk⟩
-  | group c' name ids comp wt =>
-    simp only [PWorld.step]
-    split
-    · exact keep _ rfl
-    · rename_i chem0 cas0 h0
-      by_cases hc : c' = c
-      · subst hc
-        rw [h] at h0; cases h0
-        split
-        · exact keep _ rfl
-        · rename_i chem' ha
-          exact ⟨_, by simp [hlt], fun k i hk => defineGroup_keeps_pos ha hk⟩
-      · split
-        · exact keep _ rfl
-        · exact ⟨chem, by simp [hc, h], fun _ _ hk => hk⟩
-  | newChemIx c' ph =>
-    simp only [PWorld.step]; split <;> exact keep _ rfl
-  | newMatIx c' ps =>
-    simp only [PWorld.step]; split <;> exact keep _ rfl
-  | newSplitIx c' =>
-    simp only [PWorld.step]; split <;> exact keep _ rfl
-  | array c' sp key d =>
-    simp only [PWorld.step]
-    split
-    · exact keep _ rfl
-    · split <;> exact keep _ rfl
-  | get i key =>
-    simp only [PWorld.step]
-    split
-    · exact keep _ rfl
-    · split
-      · exact keep _ rfl
-      · split <;> exact keep _ rfl
-  | getMass i key =>
-    simp only [PWorld.step]
-    split
-    · exact keep _ rfl
-    · split
-      · exact keep _ rfl
-      · split <;> exact keep _ rfl
-  | set i key d =>
-    simp only [PWorld.step]
-    split
-    · exact keep _ rfl
-    · split
-      · exact keep _ rfl
-      · split <;> exact keep _ rfl
-  | setMass i key d =>
-    simp only [PWorld.step]
-    split
-    · exact keep _ rfl
-    · split
-      · exact keep _ rfl
-      · split <;> exact keep _ rfl
-  | copyLike l r =>
-    simp only [PWorld.step, PWorld.transfer]
-    repeat' split
-    all_goals exact keep _ rfl
-  | mixFrom l r =>
-    simp only [PWorld.step, PWorld.transfer]
-    repeat' split
-    all_goals exact keep _ rfl
-
 /-- **names_never_move.**  Whatever happens afterwards — aliases (accepted, rejected or
 half-entered), groups (defined, redefined, rejected), lookups, writes, transfers — a name that
 resolves to the position of a chemical keeps resolving to that position (a group can never take
@@ -1041,20 +538,6 @@ example :
 
 /-! ### Keys nested too deeply -/
 
-theorem lookupItems_deep (c : Chem) : ∀ (l : List HItem) (h : Bool), HItem.leaf (.deep h) ∈ l →
-    lookupItems c l = .error .undefinedAlias
-  | [], _, hm => by cases hm
-  | it :: t, h, hm => by
-    simp only [lookupItems]
-    rcases List.mem_cons.mp hm with hm | hm
-    · subst hm; simp [lookupItem, bind, Except.bind]
-    · cases hi : lookupItem c it with
-      | error e =>
-        cases it with
-        | leaf a => cases a <;> simp_all [lookupItem, Chem.lookup, bind, Except.bind] <;> (split at hi <;> simp_all)
-        | tup l => simp_all [lookupItem, bind, Except.bind]
-      | ok e => simp [bind, Except.bind, lookupItems_deep c t h hm]
-
 /-- A sequence where a name belongs is never a name: the key does not resolve
 (`UndefinedChemicalAlias`), and when a list hides inside it cannot even be hashed (`TypeError`). -/
 theorem deep_key_rejected (c : Chem) (l : List HItem) (h : Bool) (hm : HItem.leaf (.deep h) ∈ l) :
@@ -1067,26 +550,6 @@ example : normC (.tup [.leaf (.str "Water"), .tup [.deep false]]) = .error .type
       .ok (.tup [.leaf (.str "l"), .tup [.str "Water", .deep true]]) := ⟨rfl, rfl, rfl⟩
 
 /-! ## Phases: `phase_lookup` -/
-
-theorem idxOf_some : ∀ (l : List Char) (c : Char) (i : Nat), idxOf c l = some i → l[i]? = some c
-  | [], _, _, h => by simp [idxOf] at h
-  | x :: t, c, i, h => by
-    unfold idxOf at h
-    split at h
-    · rename_i hx; cases h; simp [hx]
-    · cases hr : idxOf c t with
-      | none => simp [hr] at h
-      | some j =>
-        simp [hr] at h; subst h
-        simp [idxOf_some t c j hr]
-
-theorem idxOf_none : ∀ (l : List Char) (c : Char), idxOf c l = none ↔ c ∉ l
-  | [], _ => by simp [idxOf]
-  | x :: t, c => by
-    unfold idxOf
-    by_cases hx : x = c
-    · simp [hx]
-    · simp [hx, idxOf_none t c, Ne.symm hx]
 
 /-- **phase_lookup.**  For every set of phases and every label: if the exact label is a
 phase, its own row is returned; only when it is absent is its case variant used; when both
